@@ -171,7 +171,22 @@ def q8a_other(code: int, foreign: int) -> str:
 
 
 # ---------------------------------------------------------------- Q8c persistence + resubmission replaces
-def _q8c(s_old, s_new, resub):
+def _transient(w, jid):
+    """The job exists but the scheduler's answer about it is temporarily unhelpful."""
+    be = w.backend
+    if be == "sge":
+        w.sim.jobs[jid].state = "Eqw"          # error state until the administrator clears it
+        w.sim.jobs[jid].in_queue = True
+    elif be == "slurm":
+        w.sim.jobs[jid].in_queue = False       # left the queue, accounting record not written yet
+        w.sim.jobs[jid].acct = False
+    elif be == "lsf":
+        w.sim.jobs[jid].in_queue = False       # bjobs answers nothing for a moment (mbatchd busy)
+    else:
+        w.pool.tasks[jid]["state"] = "UNKNOWN"
+
+
+def _q8c(s_old, s_new, resub, mid):
     """Invocation 1 submits A.  Invocation 2: optional resubmission (new job).  Invocation 3 reads the
     state: it must be that of the latest job only."""
     be = q.SHARD["be"]
@@ -180,6 +195,7 @@ def _q8c(s_old, s_new, resub):
         return q.SKIP
     so, sn = q.pick(states, s_old), q.pick(states, s_new)
     resub = True if resub else False
+    mid = True if mid else False
     with q.notrace():
         w = _world(be)
         w.install()
@@ -187,6 +203,13 @@ def _q8c(s_old, s_new, resub):
         with _backend(w) as b1:
             b1.submit(T["A"], [])
         id1 = abst.jobs_by_cmd(w)[-1]["id"]
+        if mid:
+            # an invocation in between (gwf status) sees the job in a transient condition; nothing may be forgotten
+            _transient(w, id1)
+            with _backend(w) as bm:
+                bm.status(T["A"])
+            if be == "slurm":
+                w.sim.jobs[id1].acct = None
         abst.set_state(w, id1, so)
         latest, st = id1, so
         if resub:
@@ -210,11 +233,11 @@ def _q8c(s_old, s_new, resub):
         w.uninstall()
 
 
-def q8c(s_old: int, s_new: int, resub: bool) -> str:
+def q8c(s_old: int, s_new: int, resub: bool, mid: bool) -> str:
     """
     post: _ == ""
     """
-    return q.run(_q8c, (s_old, s_new, resub))
+    return q.run(_q8c, (s_old, s_new, resub, mid))
 
 
 # ---------------------------------------------------------------- Q8d sacct batching
@@ -311,7 +334,7 @@ QUERIES = [
     {"name": "Q8a-other", "fn": q8a_other, "shards": [{"be": "lsf"}, {"be": "sge"}, {"be": "local"}], "timeout": 600,
      "bound": "own job in each documented state of bjobs (12 incl. empty answer) / qstat (22 incl. absent) / the pool (8 incl. absent); 5 sets of unrelated jobs"},
     {"name": "Q8c", "fn": q8c, "shards": [{"be": b} for b in ("slurm", "sge", "lsf", "local")], "timeout": 600,
-     "bound": "three invocations: submit, optional resubmission, query; old and new job each in {pending, running, failed, done}"},
+     "bound": "invocations: submit, optionally a status while the job is in a transient condition (SGE error state Eqw, Slurm: in neither squeue nor sacct, LSF: empty bjobs answer), optional resubmission, query; old and new job each in {pending, running, failed, done}"},
     {"name": "Q8d", "fn": q8d, "shards": [{}], "timeout": 300, "bound": "0..5 tracked ids, batch size 1..3 (symbolic); the shipped default 1024 is the same code path"},
     {"name": "Q8e", "fn": q8e, "shards": [{}], "timeout": 300, "bound": "pool restarted or not; a task of another target with the same / another id in 3 states"},
 ]
